@@ -217,6 +217,11 @@ fn plan_inner(id: &str, tier: &str, seed: u64, round: u64) -> Plan {
                 .map(|i| {
                     let mut c = cfg.clone();
                     c.force_style = if i % 5 == 4 { None } else { Some(vmodel::model::STYLES[i % 16].to_string()) };
+                    // field-less enums regularly (they may carry explicit discriminants in any order)
+                    if i % 6 == 3 {
+                        c.allow_fields = false;
+                        c.allow_transparent = false;
+                    }
                     gen::gen_string(&mut rg, &c)
                 })
                 .collect();
@@ -285,6 +290,15 @@ fn plan_inner(id: &str, tier: &str, seed: u64, round: u64) -> Plan {
                 c.allow_default = c.derives.iter().any(|d| d == "EnumString");
                 // a declared custom error must not disturb the catch-all
                 c.parse_err = Some(c.allow_default && i % 4 == 0);
+                // some catch-alls sit behind the phf map (field-less apart from the default variant)
+                if c.allow_default && i % 7 == 2 {
+                    c.allow_fields = false;
+                    c.allow_transparent = false;
+                    c.allow_generics = false;
+                    c.sync_only = true;
+                    c.ci_heavy = i % 2 == 0;
+                    c.phf = true;
+                }
                 let s = gen::gen_string(&mut rg, &c);
                 if s.variants.iter().any(|v| !v.disabled() && (v.is_default() || v.transparent())) {
                     specs.push(s);
@@ -294,7 +308,7 @@ fn plan_inner(id: &str, tier: &str, seed: u64, round: u64) -> Plan {
             Plan {
                 specs,
                 params: params(&[("cases", if thorough { 5000 } else { 1000 }), ("max_flip_letters", if thorough { 10 } else { 6 }), ("draws", if thorough { 8 } else { 3 })]),
-                strum_features: vec!["derive".into()],
+                strum_features: vec!["derive".into(), "phf".into()],
                 profiles: vec!["dev", "rel"],
                 policy: Policy::TaggedOnly,
                 rule: "programs: enums with a default variant (tuple or single named field; inner String, Box<str>, Rc<str>, Arc<str>, a From<&str> wrapper) and/or transparent variants (inner String, &'static str, integers, a nested enum, a Spy type printing the formatter state), derive sets chosen so that the inner type satisfies them. Oracle: every input with no model match is captured verbatim (byte for byte) and from_str(s)?.to_string() == s; for transparent variants and default variants without to_string the whole 3740-cell format grid, as_ref and From<..> for &'static str equal what the inner field gives. Non-trivial = captured input within one edit / case flip / look-alike of a spelling or containing whitespace / non-ASCII; grid cell that pads or truncates.".into(),
@@ -467,6 +481,11 @@ fn plan_inner(id: &str, tier: &str, seed: u64, round: u64) -> Plan {
                     let c = gen::IterCfg { derives: derives(&["EnumIter"]), max_variants: 12, n_enabled: Some(n), ..Default::default() };
                     specs.push(gen::gen_iter(&mut rg, &c));
                 }
+            }
+            // larger enums with disabled variants in the middle: which variant sits at which cursor position
+            for (n, m) in [(36usize, 0b100100u32), (67, 0b10)] {
+                let c = gen::IterCfg { derives: derives(&["EnumIter"]), max_variants: 12, mask: Some((n, m)), fieldless: true, ..Default::default() };
+                specs.push(gen::gen_iter(&mut rg, &c));
             }
             name_specs(&mut specs, round);
             Plan {
